@@ -1,8 +1,19 @@
 from lib.pipeline import Prop
 PROP = Prop(
-    "C12",
-    models=[("pkg/kgo/consumer_share.go", ["buildAckRanges", "coalesceAppendRange", "filterStaleEntries", "shareAckState.tryAck"])],
-    rule="build: one case = the pending user acknowledgements (offset, status, source, epoch; the same state appended twice for "
+    "C12", harness="sim", quick=["--mode", "ackr,share"], thorough=["--mode", "ackr,share"], harness_kind="test", tags="verif synctests", driver="C12",
+    run_timeout={"quick": 1200, "thorough": 3400},
+    models=[("pkg/kgo/consumer_share.go", ["buildAckRanges", "coalesceAppendRange", "filterStaleEntries", "shareAckState.tryAck",
+                                           "source.shareAck", "source.createShareReq", "source.closeShareSession", "shareConsumer.leave",
+                                           "shareConsumer.finalizePreviousPoll", "Client.FlushAcks", "shareAckState.appendAck"]),
+            ("pkg/kfake/78_share_fetch.go", ["Cluster.handleShareFetch"]),
+            ("pkg/kfake/share_groups.go", ["shareGroup.processShareAcks", "validateOneAckBatch", "sharePartition.validateAndProcessAcks"])],
+    rule="share (protocol half): scenario = 1-3 share-group members of this tree (PollFetches or PollRecords(2|5), per record Ack accept 55% / release 10% / "
+         "reject 7% / renew 10% (half of them then accept) / nothing 18% (auto-accept at the next poll), processing longer than the acquisition lock with "
+         "probability 0/15/40 %, FlushAcks after a poll with probability 0/30/100 %, members joining late and leaving early, Close) x real kfake (1-2 brokers, "
+         "1-2 partitions, lock 1 or 2 s, leader moves) while a plain producer and 0-2 transactional producers (commit/abort markers) write; history = API events "
+         "(records returned with delivery count, Ack calls, implied auto-accepts, callbacks with error, FlushAcks, Close) and wire events (every acknowledgement "
+         "batch, every per-partition acknowledge result, every acquired range, virtual timestamps); non-trivial = at least 10 records returned and 3 wire batches. "
+         "ackr build: one case = the pending user acknowledgements (offset, status, source, epoch; the same state appended twice for "
          "renew-then-terminal) and gap ranges of one partition; structured cases cut an offset line into acquired blocks that are either "
          "delivered records acked with a mix of accept/release/reject/renew/undecided in call order, shuffled or reversed, or holes (gap 0 / "
          "release 2), over one or several fetches (epochs, sources), up to 30 blocks (> 12 elements leaves Go's stable insertion sort); 12 % "
@@ -13,7 +24,10 @@ PROP = Prop(
          "stale: 1..3 drains of entries/gaps mostly deliverable, some from another source or a later epoch; non-trivial = non-empty. "
          "try: every sequence of <= 2 (thorough 3) calls over {1..4} x strict plus renew reset from every initial status, and random longer ones; "
          "race: 2..16 real goroutines on one state released together; non-trivial = at least two calls. distinct = distinct op lines.",
-    trusted_base=["hand-written Lean model of buildAckRanges / coalesceAppendRange / filterStaleEntries / tryAck (pkg/kgo/consumer_share.go), tied by "
+    trusted_base=["history monitor Model.Share (its ledgers: unsent/sent/answered decisions, confirmations, open records, pending callbacks) and the event vocabulary",
+                  "harness/sim (synctest bubble: virtual time stands still while any goroutine runs, so an event stamped strictly later was caused later) and the "
+                  "wire decoding of ShareFetch/ShareAcknowledge with kmsg; members are told apart by their client id",
+                  "hand-written Lean model of buildAckRanges / coalesceAppendRange / filterStaleEntries / tryAck (pkg/kgo/consumer_share.go), tied by "
                   "differential runs through pkg/kgo/verif_export_c12.go (real functions over states/sources/slabs built from plain values)",
                   "tryAck interleavings: the model's atomic actions are the Load/CompareAndSwap operations of the code; the real-goroutine runs are "
                   "judged by the Spec only (their schedule is the Go runtime's)",
@@ -27,24 +41,33 @@ PROP = Prop(
                  "statuses passed to tryAck are 1..4 (Record.Ack / MarkAcks reject anything else)",
                  "reachability of the failing class in the real flow was shown outside the check (harness/cmd/c12/e2eprobe: transactional topic, poll all, accept all -> "
                  "ShareFetch piggybacks [0,2][4,5][3,3][6,6]); that probe also shows kfake losing the piggybacked ack error when the ShareFetch long-polls",
-                 "PROTOCOL HALF NOT COVERED: at-most-once delivery of a final ack to the broker, no redelivery after a confirmed accept/reject, auto-accept at the "
-                 "next poll, release on close and the FlushAcks/callback ordering are not checked by this plug-in"],
-    partial="The ordering clause is FALSE of the current code (build_ascending_false, decided witness entries {10,11 accept} + gap [5,9] -> [10,11],[5,9]): "
-            "buildAckRanges emits all user-entry ranges and then all gap ranges. Proved instead: the output is two ascending non-overlapping runs "
-            "(build_two_runs_partial), it is ascending whenever no gap range starts below a decided entry (build_ascending_partial), and every offset is "
-            "acknowledged exactly once with its type (build_coverage). Only the pure half of C12 is covered.",
+                 "protocol half: a decision counts as confirmed when the request that carried it was answered without error for the partition and the next callback for the "
+                 "partition reported no error; the same offset can carry decisions of several deliveries of one member, of which a request carries one (observed: "
+                 "buildAckRanges dedupes by offset); after an error callback the monitor no longer demands that the partition's unsent decisions reach the wire; "
+                 "no connection faults are injected in share scenarios",
+                 "a share scenario that never becomes quiescent because kgo's loopShareFetch spins while an ack timer is armed and nothing can be fetched "
+                 "(goroutines created at a high rate under a loopShareFetch frame while no event is logged; <= 1 s in real time, endless under virtual time) is "
+                 "inconclusive: verdict -, counted as scen.share.inconclusive-ack-timer-spin (about 0.5 % of scenarios); any other hang is C12.scenario-hang"],
+    partial="Only the pure half of C12 is covered by these ops. The range clause is proved at full strength (build_spec) since repair 5958f14; "
+            "before it the ordering conjunct was false (finding ackranges-gaps-after-entries, regression kept in corpus/C12 and as an example). "
+            "Protocol half: theorems state what every accepted history satisfies at each event in terms of the monitor's ledgers (stateAt); the ledgers are the "
+            "specification of 'unsent decision', 'confirmed', 'open record', they are not derived from a model of the client.",
 )
 MANIFEST = {
-    "text": "PURE HALF ONLY. Lean theorems, all inputs: the per-record ack state machine of tryAck (atomic actions = the code's Load/CompareAndSwap, any number "
-            "of callers, any interleaving, renew resets) sets a final outcome at most once, keeps it, and ends terminal exactly when one call won; "
-            "buildAckRanges/coalesceAppendRange acknowledge every pending offset exactly once with its ack type (gaps as gaps), flag renews exactly when a renew "
-            "batch is present, and emit two ascending non-overlapping runs; the property's 'ascending order' clause is refuted by a decided witness and the "
-            "differential check reports that class on the real code under the stable key ackranges-gaps-after-entries (user ranges are emitted before gap "
-            "ranges; kfake and Kafka answer such a list with INVALID_REQUEST for the partition). filterStaleEntries keeps exactly the entries of this source and "
-            "session. The model is tied to the code by differential runs through a verif export, exhaustive over small scopes in the thorough tier. "
-            "The protocol half of C12 (redelivery, auto-accept, release on close, FlushAcks ordering) is not covered.",
-    "note": "Trusted: Lean kernel; the hand-written model (validated differentially, not verified); Go's sort modelled as stable; Kafka offsets below 2^63-1; "
-            "gap ranges disjoint from each other and from decided entries; tryAck statuses 1..4. Real-goroutine tryAck runs are judged by the Spec only.",
-    "technique": "Lean 4 proof (transition-system invariant for the CAS machine; induction over the coalescing fold; decided counterexample for the failing clause) "
-                 "with differential correspondence against the real functions",
+    "text": "Pure half, Lean theorems for all inputs: the per-record ack state machine of tryAck (atomic actions = the code's Load/CompareAndSwap, any number of "
+            "callers, any interleaving, renew resets) sets a final outcome at most once and keeps it; buildAckRanges/coalesceAppendRange emit, for every "
+            "well-formed input, an ascending non-overlapping batch list that acknowledges every pending offset exactly once with its ack type (gaps as gaps) and "
+            "flags renews exactly; filterStaleEntries keeps exactly the entries of this source and session; tied to the code by differential runs through a verif "
+            "export (exhaustive small scopes in the thorough tier). Protocol half, verified monitor: Lean theorems over ALL accepted histories of share-group "
+            "members x broker: the acknowledgement batches of a request are ascending and non-overlapping per partition on the wire; every accept/reject batch "
+            "is backed by an application decision that no earlier unfailed request carries (one final ack per delivery) and has its type; no offset is acquired "
+            "again after its accept/reject was confirmed without error; an accept/reject is only answered with success to the member that holds the record; "
+            "Close releases undecided records; FlushAcks returns after the callbacks of all earlier acknowledgements; every decision reaches the wire by "
+            "quiescence. Tie: history correspondence with real kgo share consumers x real kfake in synctest bubbles (transaction markers, slow processing past "
+            "the lock, renew, churn, leader moves).",
+    "note": "Trusted: Lean kernel; the hand-written pure model (validated differentially, not verified); the monitor's ledgers and event vocabulary; harness and wire "
+            "decoding; Go's sort modelled as stable; Kafka offsets below 2^63-1; gap ranges disjoint from each other and from decided entries; tryAck statuses 1..4. "
+            "Theorems quantify over all histories; the correspondence samples schedules. Real-goroutine tryAck runs are judged by the Spec only.",
+    "technique": "Lean 4 proof (transition-system invariant for the CAS machine; induction over the coalescing fold; history monitor with invariants) with differential "
+                 "and history correspondence against kgo x kfake",
 }
